@@ -191,7 +191,7 @@ def gen_spec(rng, n=None, m=None, ties=False, nums=None, styles=None, plain=Fals
         if ties:
             nums = [rng.randint(1, max(2, n // 2)) for _ in range(n)]
         else:
-            mode = rng.choice(["small", "small", "big", "near", "near_rev", "mixed"])
+            mode = rng.choice(["small", "small", "small", "small", "big", "near", "near_rev", "mixed"])
             vals = rng.sample(range(0, 4 * n + 4), n)
             if mode == "small":
                 nums = vals
@@ -353,7 +353,7 @@ def exhaustive_cases(rng, nmax, all_orders_upto, cont_all=False, stats=None):
             styles = [[c for c in (0, 1) if (b >> c) & 1] for b in pat]
             for perm in (perms if perms is not None else [None]):
                 nums = [3 * p + 1 for p in perm] if perm is not None else [3 * p + 1 for p in rng.sample(range(n), n)]
-                if rng.random() < 0.35:
+                if rng.random() < 0.08:
                     nums = [NEAR + v for v in nums]       # same order, but indistinguishable as doubles
                 spec = gen_spec(rng, n=n, m=2, nums=nums, styles=styles, plain=True)
                 cvrs = mk_cvrs(spec, rng)
